@@ -46,3 +46,17 @@ func VerifSortANPs(pe *PolicyEngine) error { return pe.sortAdminNetpolsByPriorit
 func VerifAllowedConns(pe *PolicyEngine, src, dst string) (*common.ConnectionSet, error) {
 	return pe.allAllowedConnections(src, dst)
 }
+
+// VerifXgressConns is allAllowedXgressConnections for peers given as strings: the connections the policies
+// governing one end allow in one direction (the other direction is not intersected).
+func VerifXgressConns(pe *PolicyEngine, src, dst string, isIngress bool) (*common.ConnectionSet, error) {
+	s, err := pe.getPeer(src)
+	if err != nil {
+		return nil, err
+	}
+	d, err := pe.getPeer(dst)
+	if err != nil {
+		return nil, err
+	}
+	return pe.allAllowedXgressConnections(s, d, isIngress)
+}
